@@ -9,32 +9,32 @@ T1 = ("Lean 4.33 kernel; axioms propext, Classical.choice, Quot.sound only (audi
       "sequence: return value, drop/release events, full collector snapshot, and in self-driven mode every counter and the exact debt "
       "are compared with the implementation built from /repo's working tree with --cfg gc_arena_verif); the monitors of "
       "harness/src/shadow.rs judge the implementation's trace independently; rustc's borrow/region checking and the global allocator are trusted; "
-      "list surgery is modelled at list level (all = pre ++ rest), the pointer-level `next` fields are validated by the snapshot comparison only")
+      "the collector model is list-level (all = pre ++ rest); the pointer-level `next`/sweep_prev surgery is proved to refine it (Proofs/PtrRefine) and the mapping of the Rust statements onto both is validated by the snapshot comparison")
 
 CHECKS = {
  "C01": dict(level="proof", tech="Lean 4 inductive invariant (inv_run) + differential correspondence",
    text="Proof: `inv_run` shows the collector invariant (list shape, queues, tri-colour, sweep safety, closure of the safe set, barrier covers) for EVERY operation sequence of the model — all barrier paths, all collection methods under arbitrary debt or arbitrary enabled micro-step oracles, trace faults at any position; C01.safety / not_condemned / no_internal_fault / call_spares_reachable are corollaries. Tie: T1 oracle-driven correspondence of the model with the real crate plus shadow-graph monitors.",
    ref="DESIGN §3.4, §6 C01"),
- "C02": dict(level="proof", tech="Lean 4 (local sweep facts, reachable-survives) + correspondence + exact-reclamation monitor",
-   text="Partial proof: per-colour behaviour of sweep_one and `reachable_survives` (everything strongly reachable at the start of a collection call is allocated and undestructed at its end) are proved for all states. The exactness direction (every unreachable value IS destructed by two finish_cycle calls; shells) is stated at full strength in Props/C02.lean (exact_statement, shells_statement, shell_release_statement) and not yet proved; for it the check relies on the correspondence and on the finish_cycle x2 monitor (drop log = complement of shadow reachability; total_gc_count = reachable + weakly held shells).",
+ "C02": dict(level="proof", tech="Lean 4: tightness invariant of a mutation-free cycle + stability of reachability (all states, unbounded heaps) + correspondence + exact-reclamation monitor",
+   text="Proof: `exactness` (after two consecutive finish_cycle calls from ANY state satisfying the invariant, an allocation is undestructed iff it was strongly reachable — cycles of garbage included, nothing retained conservatively), `shells` (whatever else is still allocated is a value-less shell weakly held by the root or a reachable object), `shell_release` (a shell no reachable weak pointer refers to is released by the next full cycle), `reachable_survives`, per-colour sweep facts. Built on `Tight` (every marked object is justified by reachability when no mutator step intervened), `SameReach` (collector steps never change reachability) and the exit-state/termination theorems of the driver loop. Tie: T1 correspondence; monitor: finish_cycle x2 drop log = complement of shadow reachability; total_gc_count = reachable + weakly held shells.",
    ref="DESIGN §6 C02"),
  "C03": dict(level="proof", tech="Lean 4 (mutator_silent over all ops and states) + correspondence + call-graph table",
    text="Proof: every mutator operation (everything but collection calls and drop) leaves the event log unchanged and keeps every allocation with its liveness, in every reachable state (C03.mutator_silent_run); held pointers stay valid; link is pure. Tie: T1 correspondence; monitor: no drop/release event bracketed by a callback.",
    ref="DESIGN §6 C03"),
- "C04": dict(level="proof", tech="Lean 4 (event discipline) + correspondence + allocator/drop-log monitors",
-   text="Partial proof: destruct-only-if-live, DropAll per object, only sweep steps emit (all states). The history-level statements (once_statement, drop_arena_statement) are stated in full and pending the log invariant; meanwhile exactly-once / all-returned / count-zero are decided on explored histories by the tracking allocator + drop log monitors and the model correspondence.",
+ "C04": dict(level="proof", tech="Lean 4 log invariant over all histories + pointer-level list refinement + correspondence + allocator/drop-log monitors",
+   text="Proof: `once` (no id is destructed twice or released twice in any history), `released_is_gone`, `is_dropped_exact`, `drop_arena` (after arena drop in any phase every allocation ever made is released exactly once, destructed iff it had not been), `nothing_unaccounted`; and the pointer surgery on the intrusive all-list (`next` fields, all / sweep / sweep_prev in link, Mark->Sweep, sweep_one, DropAll) refines the list-level model: `list_surgery_link/sweep/enter_sweep/end_sweep`, `no_dangling_next`, `drop_visits_all`. Tie: T1 correspondence incl. the snapshot walk of the real list (order, cursor, sweep_prev) after every op; monitors: tracking allocator (every block released exactly once with its layout) + drop log.",
    ref="DESIGN §6 C04"),
- "C05": dict(level="proof", tech="Lean 4 (upgrade sound/complete/fails-only, query safety) + correspondence",
-   text="Proof: upgrade_sound, upgrade_complete, upgrade_fails_only, query_safe, upgrade_condemned_fails for every reachable state and phase (from inv_run). is_dropped exactness is pending with C04's log invariant; 'never keeps alive' with C02 exactness. Tie: T1/od; monitor: every weak query vs shadow graph + drop log.",
+ "C05": dict(level="proof", tech="Lean 4 (upgrade sound/complete/fails-only, query safety, is_dropped exact and stable) + correspondence",
+   text="Proof: upgrade_sound, upgrade_complete, upgrade_fails_only, query_safe, upgrade_condemned_fails, is_dropped exact / never reverts, for every reachable state and phase (from inv_run / linv_run); 'a weak pointer never keeps its target alive' is C02.exactness (reachability there is strong reachability only). Tie: T1/od; monitor: every weak query vs shadow graph + drop log.",
    ref="DESIGN §6 C05"),
  "C06": dict(level="proof", tech="Lean 4 (per-barrier preservation + cover calculus) + correspondence",
    text="Proof: each of the four barriers preserves the invariant, keeps every earlier barrier's guarantee and establishes its own, for every phase and colour (C06.backward_barrier, …); every store path preserves Inv; covers persist until the next collection call; general forms license any child / any parent; barriers are bookkeeping only and never fault. Tie: T1/od with explicit barrier profile.",
    ref="DESIGN §6 C06"),
- "C07": dict(level="proof", tech="Lean 4 (marked_sound etc.) + correspondence + is_dead monitor",
-   text="Proof: marked_sound (no strongly reachable object is dead when a MarkedArena is handed out), resurrect_none_iff, resurrect_marking, resurrect_queues, sweep_waits_for_queue. Pending, stated in full: marked_exact_statement, resurrect_protects_statement; for those the check relies on correspondence + the is_dead / survival monitors.",
+ "C07": dict(level="proof", tech="Lean 4 (marked_sound, marked_exact, resurrect_protects with closure) + correspondence + is_dead monitor",
+   text="Proof: marked_sound (no strongly reachable object is dead when a MarkedArena is handed out), marked_exact (if no mutation happened since this cycle's marking began, is_dead is true exactly for the objects unreachable from the root — even across trace faults), resurrect_none_iff, resurrect_marking, resurrect_queues, resurrect_protects and resurrect_protects_closure (a resurrected object and everything strongly reachable from it is not destructed in this cycle even if stored nowhere), sweep_waits_for_queue. Tie: T1/od finalize profile; is_dead / survival monitors.",
    ref="DESIGN §6 C07"),
- "C08": dict(level="proof", tech="Lean 4 (driver loop unfolded) + self-driven correspondence + protocol monitor",
-   text="Proof: asserts unreachable for every history; micro-step phase order; sweep only from fully marked; mark_debt/finish_marking are no-ops from Marked and from Sweeping; start_sweeping ends Sweeping; callbacks keep the phase. Pending (need the termination measure): finish_marking_some_iff, finish_cycle_ends_sleeping, cycle_never_rewakes. Tie: T1 self-driven (the model computes debt itself; step logs compared); protocol automaton monitor.",
+ "C08": dict(level="proof", tech="Lean 4 (driver loop: termination measure, exit states per Stop, step-log shape) + self-driven correspondence + protocol monitor",
+   text="Proof: every_call_terminates (the driver loop terminates from every invariant state for every RunUntil/Stop/pacing/debt/fault position), finish_marking_some_iff (Some exactly when not Sweeping), finish_cycle_ends_sleeping, cycle_never_rewakes (nothing follows the Sweep->Sleep switch in one cycle_debt/finish_cycle call), asserts unreachable for every history; micro-step phase order; sweep only from fully marked; mark_debt/finish_marking are no-ops from Marked and from Sweeping; start_sweeping ends Sweeping; callbacks keep the phase. Tie: T1 self-driven (the model computes debt itself; step logs compared); protocol automaton monitor.",
    ref="DESIGN §6 C08"),
  "C09": dict(level="proof", tech="Lean 4 over exact rationals + self-driven correspondence + debt monitors",
    text="Proof: collect_debt returns with zero debt from every state (induction over the driver loop, any pacing/debt); debt non-negative; empty arena never collects. The stop-the-world clause is FALSE as stated in one corner (known finding, replay in corpus/); rho-bound and sleep clauses are stated in full and pending the accounting invariant — decided meanwhile by exact counter/debt correspondence on the dyadic stream and by the monitors.",
